@@ -66,6 +66,10 @@ CLAIMED = {
             "Generated-input search: eight struct shapes (flat, 1- and 2-level embedded, embedded interface with pointer/nil, empty, all-optional) x random values x optional subsets; every entry count 0..257 and 65535/65536(/65537/70000) of synthetic structs; extension profiles on both base profiles. The serialised map must equal the hand-written union in declaration order with a correct header, populate must reproduce the value, match the plain marshaller for shapes without embedding, be byte-stable, and fail on a missing non-optional or duplicate key.",
             "Shapes stay inside the claims convention (see DESIGN.md S-notes: no embedded pointer-to-struct, no empty non-nil slices under omitempty).",
             "DESIGN.md §4 C15"),
+    "C18": ("rapid sequences of read-side calls with a reflect-based deep fingerprint before/after every call + repeat-equality; input-buffer scribbling and cross-instance mutation for aliasing",
+            "Generated histories: subjects of seven kinds (literal, setters, decoded from CBOR/JSON, extension instance, decoded and freshly signed Evidence; valid or deviating) x 1..30 random read-side calls; after each call the deep fingerprint of everything reachable (exported fields, pointers, slices, component container) must be unchanged and an immediate repeat must return the identical result; decoding from a private buffer that is then overwritten (0x00/0xff/noise) must change no getter, encoding or Verify outcome, the decoder must not write to its input, and a second instance decoded from the same bytes must be unaffected by writes into the first instance's returned slices.",
+            "The COSE message inside an Evidence is unexported: only its behaviour (Verify outcomes, MarshalJSON) is required to be stable; a change confined to it is recorded as a class, not a violation.",
+            "DESIGN.md §4 C18"),
     "C19": ("rapid state machine over one Evidence with injected signer faults, against a reference model of the envelope/claims binding",
             "Generated histories (1..30 steps) of SetClaims / Sign / ValidateAndSign / UnmarshalCOSE / Verify with faulty signers (error, empty signature, junk, unsupported algorithm) and hostile tokens at arbitrary positions; after every step the model's invariants are checked (failed operation returns nothing; after failed sign every Verify fails; Verify success implies claims equal the decoding of the covered payload; a later good sign succeeds).",
             "Trusts the independent splitter for 'the payload the signature covers' and by-construction knowledge of which key verifies which token.",
